@@ -8,6 +8,7 @@ package main
 // Inputs (C03): every command-line input is resolved with FileMatch and merged, in command-line order, with its
 // inherited layers (MergeFileLayers) unless -P is given, in which case the file alone is merged (MergeFile).
 //@ func main() ()
+//@   propagates all   [C08] [C03] [C05]
 //@   property C05, C03
 //@   loop 1
 //@     transition (=> (not (= format@iter "")) (= format format@iter))                                      [C05]
